@@ -15,7 +15,12 @@ CONSTANTS Slates,        \* slate names, e.g. {"s1","s2"}
           MaxLog,        \* bound on log entries per wallet (state constraint)
           UseLate,       \* allow late-locked sends
           UseTtl,        \* allow a TTL of +1 block on sends
-          UseInvoice     \* allow invoice flows
+          UseInvoice,    \* allow invoice flows
+          UseAccounts,   \* a second account on w1, account switching, send from a named account
+          UseMineTo,     \* blocks mined to the wallets themselves
+          UseCancelBySlate,
+          UseAdv,        \* adversarial foreign calls on w1
+          MaxAdv         \* at most this many adversarial calls per behaviour
 
 VARIABLES st, hv, net, hist
 vars == <<st, hv, net, hist>>
@@ -83,136 +88,254 @@ Select(s, w, a, amt, H, m, nchg) ==
 
 \* ------------------------------------------------------------- bookkeeping
 Log(e) == hist' = Append(hist, e)
-Done(w, kind, sl) == [hv EXCEPT !.done[w] = @ \cup {<<kind, sl>>}]
 
 \* ------------------------------------------------------------------ actions
-\* -- sender w1 initiates a send of amt to w2 (1 change output, min conf 1)
-InitSendAct(sl, amt, late, ttlb) ==
+\* every action: st' from the step operator, hv' maintained as in the trace spec,
+\* one record appended to hist (the replay driver understands exactly these)
+Upd(s2, hv2, net2, e) == /\ st' = s2 /\ hv' = HvIssued(hv2, s2) /\ net' = net2 /\ Log(e)
+Msg(sl, stage, amt, ttl, rout, rep) == [sl |-> sl, stage |-> stage, amt |-> amt, ttl |-> ttl, rout |-> rout, rep |-> rep]
+ChgSeq(sel) == IF sel.chg = 0 THEN <<>> ELSE <<sel.chg>>
+
+\* -- sender w1 initiates a send of amt to w2 from account src ("" = active)
+InitSendAct(sl, amt, late, ttlb, src) ==
   /\ sl \notin DOMAIN st.w["w1"].ctxs
   /\ ~\E m \in net : m.sl = sl
-  /\ LET r1  == Refresh1(st, "w1", "a0", FALSE)
-         sel == Select(r1, "w1", "a0", amt, Height(st), 1, 1)
+  /\ LET acct == AcctOf(st, "w1", src)
+         r1  == Refresh1(st, "w1", acct, FALSE)
+         sel == Select(r1, "w1", acct, amt, Height(st), 1, 1)
          ttl == IF ttlb = 0 THEN 0 ELSE Height(st) + ttlb
-         args == [sl |-> sl, src |-> "", amt |-> amt, sel |-> sel.sel,
-                  chg |-> IF sel.chg = 0 THEN <<>> ELSE <<sel.chg>>, fee |-> sel.fee,
+         args == [sl |-> sl, src |-> src, amt |-> amt, sel |-> sel.sel, chg |-> ChgSeq(sel), fee |-> sel.fee,
                   late |-> late, incfee |-> FALSE, ttl |-> ttl, proof |-> FALSE,
                   minconf |-> 1, maxouts |-> 500, nchange |-> 1, useall |-> FALSE]
-     IN /\ sel.ok
-        /\ LET r == InitSend(st, "w1", args) IN
-           /\ st' = LastOf(r.steps)
-           /\ net' = net \cup {[sl |-> sl, stage |-> "S1", amt |-> amt, ttl |-> ttl, rout |-> "", rep |-> 0]}
-           /\ hv' = hv
-           /\ Log([ev |-> "init_send", w |-> "w1", sl |-> sl, amt |-> amt, late |-> late, ttlb |-> ttlb])
+         e == [ev |-> "init_send", w |-> "w1", sl |-> sl, amt |-> amt, late |-> late, ttlb |-> ttlb, src |-> src]
+     IN IF sel.ok
+        THEN Upd(LastOf(InitSend(st, "w1", args).steps), hv, net \cup {Msg(sl, "S1", amt, ttl, "", 0)}, e)
+        ELSE Upd(LastOf(InitSendErr(st, "w1", args, 0).steps), hv, net, e)
 
 LockAct(sl, m) ==
   /\ sl \in DOMAIN st.w["w1"].ctxs
   /\ ~st.w["w1"].ctxs[sl].late.on
-  /\ m \in net /\ m.sl = sl
-  /\ LET r == Lock(st, "w1", [sl |-> sl, stage |-> m.stage, ttl |-> m.ttl, hasproof |-> FALSE]) IN
-     /\ st' = LastOr(r.steps, st)
-     /\ hv' = IF r.res = "ok" THEN HvAfterLock(st, LastOf(r.steps), hv, "w1", sl) ELSE hv
-     /\ UNCHANGED net
-     /\ Log([ev |-> "lock", w |-> "w1", sl |-> sl, stage |-> m.stage, rep |-> m.rep])
+  /\ m \in net /\ m.sl = sl /\ m.stage \in {"S1", "S2", "I2"}
+  /\ LET r == Lock(st, "w1", [sl |-> sl, stage |-> m.stage, ttl |-> m.ttl, hasproof |-> FALSE])
+         s2 == LastOr(r.steps, st) IN
+     Upd(s2, IF r.res = "ok" THEN HvAfterLock(st, s2, hv, "w1", sl) ELSE hv, net,
+         [ev |-> "lock", w |-> "w1", sl |-> sl, stage |-> m.stage, rep |-> m.rep])
 
-ReceiveAct(sl) ==
+\* deliver the S1 message of slate sl to wallet w (w2 normally; w1 = self-send)
+ReceiveAct(w, sl) ==
   /\ \E m \in net : m.sl = sl /\ m.stage = "S1"
   /\ LET m == CHOOSE m \in net : m.sl = sl /\ m.stage = "S1"
-         r == Receive(st, "w2", [sl |-> sl, dest |-> "", amt |-> m.amt, ttl |-> m.ttl,
-                                 hasproof |-> FALSE, kernin |-> "part"]) IN
+         r == Receive(st, w, [sl |-> sl, dest |-> "", amt |-> m.amt, ttl |-> m.ttl, hasproof |-> FALSE, kernin |-> "part"])
+         e == [ev |-> "receive", w |-> w, sl |-> sl] IN
      IF r.res = "ok"
-     THEN /\ st' = LastOf(r.steps)
-          /\ net' = net \cup {[sl |-> sl, stage |-> "S2", amt |-> m.amt, ttl |-> m.ttl, rout |-> OID(st, "w2", r.key), rep |-> r.rep]}
-          /\ hv' = HvAfterReceive(st, LastOf(r.steps), hv, "w2", sl)
-          /\ Log([ev |-> "receive", w |-> "w2", sl |-> sl])
-     ELSE /\ UNCHANGED <<st, net, hv>>
-          /\ Log([ev |-> "receive", w |-> "w2", sl |-> sl])
+     THEN Upd(LastOf(r.steps), HvAfterReceive(st, LastOf(r.steps), hv, w, sl),
+              net \cup {Msg(sl, "S2", m.amt, m.ttl, OID(st, w, r.key), r.rep)}, e)
+     ELSE Upd(st, hv, net, e)
 
 FinalizeAct(sl, m) ==
   /\ m \in net /\ m.sl = sl /\ m.stage = "S2"
   /\ sl \in DOMAIN st.w["w1"].ctxs
   /\ LET cx == st.w["w1"].ctxs[sl]
          late == cx.late.on
-         sel == Select(st, "w1", "a0", cx.amt, Height(st), 1, 1)
-         r == Finalize(st, "w1", [sl |-> sl, stage |-> "S2", rep |-> m.rep, ttl |-> m.ttl, valid |-> TRUE, proofok |-> TRUE,
-                                  hasproof |-> FALSE, rout |-> {m.rout},
-                                  lsel |-> sel.sel, lchg |-> IF sel.chg = 0 THEN <<>> ELSE <<sel.chg>>]) IN
+         sel == Select(st, "w1", st.w["w1"].active, cx.amt, Height(st), 1, 1)
+         r == Finalize(st, "w1", [sl |-> sl, stage |-> "S2", rep |-> m.rep, rkern |-> "rpart", ttl |-> m.ttl, valid |-> TRUE, proofok |-> TRUE,
+                                  hasproof |-> FALSE, rout |-> {m.rout}, lsel |-> sel.sel, lchg |-> ChgSeq(sel)])
+         s2 == LastOr(r.steps, st) IN
      /\ late => (sel.ok /\ sel.fee = cx.fee)
-     /\ st' = LastOr(r.steps, st)
-     /\ hv' = HvAfterFinalize(st, LastOr(r.steps, st), hv, "w1", sl, r.res = "ok")
-     /\ UNCHANGED net
-     /\ Log([ev |-> "finalize", w |-> "w1", sl |-> sl, rep |-> m.rep])
+     /\ Upd(s2, HvAfterFinalize(st, s2, hv, "w1", sl, r.res = "ok"), net,
+            [ev |-> "finalize", w |-> "w1", sl |-> sl, stage |-> "S2", rep |-> m.rep])
+
+\* -- invoice flow: w2 issues (payee), w1 pays, w1 locks with the I2 slate, w2 finalizes
+IssueInvoiceAct(sl, amt) ==
+  /\ sl \notin DOMAIN st.w["w2"].ctxs
+  /\ ~\E m \in net : m.sl = sl
+  /\ LET r == IssueInvoice(st, "w2", [sl |-> sl, dest |-> "", amt |-> amt]) IN
+     Upd(LastOf(r.steps), hv, net \cup {Msg(sl, "I1", amt, 0, OID(st, "w2", r.key), 0)},
+         [ev |-> "issue_invoice", w |-> "w2", sl |-> sl, amt |-> amt])
+ProcessInvoiceAct(sl) ==
+  /\ \E m \in net : m.sl = sl /\ m.stage = "I1"
+  /\ LET m == CHOOSE m \in net : m.sl = sl /\ m.stage = "I1"
+         acct == st.w["w1"].active
+         r1  == Refresh1(st, "w1", acct, FALSE)
+         sel == Select(r1, "w1", acct, m.amt, Height(st), 1, 1)
+         args == [sl |-> sl, src |-> "", amt |-> m.amt, sel |-> sel.sel, chg |-> ChgSeq(sel), fee |-> sel.fee, ttl |-> 0]
+         pe == ProcessInvoiceErr(st, "w1", args)
+         e == [ev |-> "process_invoice", w |-> "w1", sl |-> sl] IN
+     IF pe # "ok" THEN Upd(st, hv, net, e)
+     ELSE IF ~sel.ok THEN Upd(r1, hv, net, e)
+     ELSE LET r == ProcessInvoice(st, "w1", args) IN
+          Upd(LastOf(r.steps), hv, net \cup {Msg(sl, "I2", m.amt, 0, m.rout, r.rep)}, e)
+FinalizeInvoiceAct(sl, m) ==
+  /\ m \in net /\ m.sl = sl /\ m.stage = "I2"
+  /\ sl \in DOMAIN st.w["w2"].ctxs
+  /\ sl \in DOMAIN st.w["w1"].ctxs
+  /\ LET cx1 == st.w["w1"].ctxs[sl]
+         r == Finalize(st, "w2", [sl |-> sl, stage |-> "I2", rep |-> m.rep, rkern |-> "rpart", ttl |-> 0, valid |-> TRUE, proofok |-> TRUE,
+                                  hasproof |-> FALSE,
+                                  rout |-> {OID(st, "w1", cx1.outs[i].k) : i \in DOMAIN cx1.outs},
+                                  rins |-> {OID(st, "w1", k) : k \in cx1.ins}, rfee |-> cx1.fee,
+                                  lsel |-> {}, lchg |-> <<>>])
+         s2 == LastOr(r.steps, st) IN
+     Upd(s2, hv, net, [ev |-> "finalize", w |-> "w2", sl |-> sl, stage |-> "I2", rep |-> m.rep])
 
 PostAct(sl) ==
   /\ sl \in DOMAIN st.body /\ sl \notin st.pool /\ sl \notin Mined(st)
-  /\ st' = Post(st, sl)
-  /\ UNCHANGED <<hv, net>>
-  /\ Log([ev |-> "post", sl |-> sl])
+  /\ Upd(Post(st, sl), hv, net, [ev |-> "post", sl |-> sl])
 
-\* a foreign miner mines a block including every pool transaction still valid
-\* (pairwise conflicting ones: first by CHOOSE)
+\* a miner mines a block including every pool transaction still valid
+\* (pairwise conflicting ones: first by CHOOSE); coinbase to `to` ("" = foreign)
 RECURSIVE PickValid(_, _, _)
 PickValid(s, cands, acc) ==
   IF cands = {} THEN acc
   ELSE LET sl == CHOOSE x \in cands : TRUE IN
        IF s.body[sl].ins \subseteq Utxo(s) /\ \A y \in acc : s.body[sl].ins \cap s.body[y].ins = {}
        THEN PickValid(s, cands \ {sl}, acc \cup {sl}) ELSE PickValid(s, cands \ {sl}, acc)
-MineAct ==
+MineAct(to) ==
   /\ Height(st) < MaxH
-  /\ st.pool # {}
+  /\ st.pool # {} \/ to # ""
   /\ LET txs == PickValid(st, st.pool, {}) IN
-     /\ st' = MineForeign(st, txs)
-     /\ UNCHANGED <<hv, net>>
-     /\ Log([ev |-> "mine", txs |-> txs])
-TickAct ==   \* an empty block, only while a TTL is pending
+     Upd(IF to = "" THEN MineForeign(st, txs) ELSE MineTo(st, to, txs), hv, net,
+         [ev |-> "mine", to |-> to, txs |-> txs])
+TickAct ==   \* an empty block, only while something can change by it (a pending TTL)
   /\ Height(st) < MaxH
-  /\ \E m \in net : m.ttl # 0 /\ m.ttl > Height(st)
-  /\ st' = MineForeign(st, {})
-  /\ UNCHANGED <<hv, net>>
-  /\ Log([ev |-> "mine", txs |-> {}])
+  /\ \E m \in net : m.ttl # 0 /\ m.ttl + 1 > Height(st)
+  /\ Upd(MineForeign(st, {}), hv, net, [ev |-> "mine", to |-> "", txs |-> {}])
 
 RefreshAct(w) ==
-  /\ st' = RefreshLite(st, w)
-  /\ st' # st
-  /\ UNCHANGED <<hv, net>>
-  /\ Log([ev |-> "refresh", w |-> w])
+  /\ LET r == RefreshFull(st, w) IN
+     /\ LastOr(r.steps, st) # st
+     /\ Upd(LastOr(r.steps, st), hv, net, [ev |-> "refresh", w |-> w])
 
-CancelAct(w, t) ==
-  /\ t \in DOMAIN st.w[w].txs
-  /\ st.w[w].txs[t].acct = st.w[w].active
-  /\ LET r == Cancel(st, w, [id |-> st.w[w].txs[t].id, sl |-> ""], TRUE) IN
-     /\ r.res = "ok"
-     /\ st' = LastOf(r.steps)
-     /\ UNCHANGED <<hv, net>>
-     /\ Log([ev |-> "cancel", w |-> w, id |-> st.w[w].txs[t].id])
+\* cancel by log id (of the active account) or by slate id; refused cancels included
+CancelAct(w, id, sl) ==
+  /\ LET r == Cancel(st, w, [id |-> id, sl |-> sl], TRUE) IN
+     Upd(LastOr(r.steps, st), hv, net, [ev |-> "cancel", w |-> w, id |-> id, by |-> sl])
+
+\* accounts on w1
+CreateAccountAct ==
+  /\ "a1" \notin AllAccts(st, "w1")
+  /\ Upd(LastOf(CreateAccount(st, "w1", [name |-> "a1"]).steps), hv, net, [ev |-> "create_account", w |-> "w1", label |-> "acct1"])
+SetActiveAct(a) ==
+  /\ a \in AllAccts(st, "w1") /\ a # st.w["w1"].active
+  /\ Upd(LastOf(SetActive(st, "w1", [name |-> a]).steps), hv, net,
+         [ev |-> "set_active", w |-> "w1", label |-> IF a = "a0" THEN "default" ELSE "acct1"])
+
+\* -- adversarial use of the foreign API of w1 (C07); the number of adversarial
+\* calls so far is kept as marker messages in `net`
+AdvCount == Cardinality({m \in net : m.stage = "ADV"})
+AdvMark == net \cup {Msg("", "ADV", AdvCount + 1, 0, "", 0)}
+\* a bogus "reply": the S1 slate relabelled S2 (no counter-party signature)
+ForeignFinalizeBogus(sl) ==
+  /\ sl \in DOMAIN st.w["w1"].ctxs
+  /\ \E m \in net : m.sl = sl /\ m.stage = "S1"
+  /\ LET m == CHOOSE m \in net : m.sl = sl /\ m.stage = "S1"
+         cx == st.w["w1"].ctxs[sl]
+         sel == Select(st, "w1", st.w["w1"].active, cx.amt, Height(st), 1, 1)
+         r == Finalize(st, "w1", [sl |-> sl, stage |-> "S2", rep |-> 0, rkern |-> "part", ttl |-> m.ttl, valid |-> FALSE, proofok |-> TRUE,
+                                  hasproof |-> FALSE, rout |-> {}, lsel |-> sel.sel, lchg |-> ChgSeq(sel)])
+         s2 == LastOr(r.steps, st) IN
+     /\ cx.late.on => sel.ok
+     /\ AdvCount < MaxAdv
+     /\ Upd(s2, HvAfterFinalize(st, s2, hv, "w1", sl, FALSE), AdvMark,
+            [ev |-> "finalize", w |-> "w1", sl |-> sl, stage |-> "S1", rep |-> 0, foreign |-> TRUE, tamper |-> "bogus"])
+\* a coinbase request naming the key of an existing record
+ForeignCoinbaseKey(k) ==
+  /\ k \in DOMAIN st.w["w1"].outs
+  /\ AdvCount < MaxAdv
+  /\ LET r == BuildCoinbase(st, "w1", [fees |-> 0, h |-> Height(st) + 1, key |-> k]) IN
+     Upd(LastOf(r.steps), hv, AdvMark, [ev |-> "build_coinbase", w |-> "w1", key |-> k, h |-> Height(st) + 1, fees |-> 0])
+\* the victim's own S1 slate is delivered to its own foreign receive
+ForeignReceiveOwn(sl) == AdvCount < MaxAdv /\ ReceiveAct("w1", sl)
 
 Next ==
-  \/ \E sl \in Slates, amt \in Amounts : InitSendAct(sl, amt, FALSE, 0)
-  \/ UseLate /\ \E sl \in Slates, amt \in Amounts : InitSendAct(sl, amt, TRUE, 0)
-  \/ UseTtl /\ \E sl \in Slates, amt \in Amounts : InitSendAct(sl, amt, FALSE, 1)
-  \/ \E sl \in Slates : ReceiveAct(sl) \/ PostAct(sl)
+  \/ \E sl \in Slates, amt \in Amounts : InitSendAct(sl, amt, FALSE, 0, "")
+  \/ UseLate /\ \E sl \in Slates, amt \in Amounts : InitSendAct(sl, amt, TRUE, 0, "")
+  \/ UseTtl /\ \E sl \in Slates, amt \in Amounts : InitSendAct(sl, amt, FALSE, 1, "")
+  \/ UseAccounts /\ (CreateAccountAct \/ \E a \in {"a0", "a1"} : SetActiveAct(a)
+                     \/ \E sl \in Slates, amt \in Amounts : InitSendAct(sl, amt, FALSE, 0, "default"))
+  \/ \E sl \in Slates : ReceiveAct("w2", sl) \/ PostAct(sl)
   \/ \E sl \in Slates : \E m \in net : FinalizeAct(sl, m) \/ LockAct(sl, m)
-  \/ MineAct \/ TickAct
+  \/ UseInvoice /\ \E sl \in Slates : (\E amt \in Amounts : IssueInvoiceAct(sl, amt)) \/ ProcessInvoiceAct(sl)
+                                        \/ \E m \in net : FinalizeInvoiceAct(sl, m)
+  \/ MineAct("") \/ TickAct
+  \/ UseMineTo /\ \E w \in WS : MineAct(w)
   \/ \E w \in WS : RefreshAct(w)
-  \/ \E w \in WS : \E t \in DOMAIN st.w[w].txs : CancelAct(w, t)
+  \/ \E w \in WS : \E t \in DOMAIN st.w[w].txs :
+        st.w[w].txs[t].acct = st.w[w].active /\ CancelAct(w, st.w[w].txs[t].id, "")
+  \/ UseCancelBySlate /\ \E w \in WS, sl \in Slates : CancelAct(w, -1, sl)
+  \/ UseAdv /\ \E sl \in Slates : ForeignFinalizeBogus(sl) \/ ForeignReceiveOwn(sl)
+  \/ UseAdv /\ \E k \in DOMAIN st.w["w1"].outs : ForeignCoinbaseKey(k)
 
 Spec == Init /\ [][Next]_vars
 
 \* ------------------------------------------------------------ constraints
-Bound == \A w \in WS : Cardinality(DOMAIN st.w[w].txs) <= MaxLog + (IF w = "w1" THEN NFund ELSE 0)
+Bound == \A w \in WS : /\ Cardinality(DOMAIN st.w[w].txs) <= MaxLog + (IF w = "w1" THEN NFund ELSE 0)
+                        /\ Cardinality(DOMAIN st.w[w].outs) <= MaxLog + 1 + (IF w = "w1" THEN NFund ELSE 0)
 View == <<st, hv, net>>
 
 \* ------------------------------------------------------------- invariants
 \* a violated invariant prints the history as a counter-example (replayed on the
 \* real code by the runner before anything is reported) and fails
-Cex(name) == PrintT(<<"CEX", ToJson([inv |-> name, hist |-> hist])>>) /\ FALSE
+\* (soft: TLC goes on, the runner collects the CEX lines - with -continue TLC would dump a
+\* full error trace per violation, which is far too slow when a defect is reachable often)
+Cex(name) == PrintT(<<"CEX", ToJson([inv |-> name, hist |-> hist])>>)
 Inv_Exclusive == IF ExclusiveReservation(st, hv) THEN TRUE ELSE Cex("ExclusiveReservation")
 TypeOK == \A w \in WS : \A k \in DOMAIN st.w[w].outs : st.w[w].outs[k].st \in Statuses
 
-\* action properties
+\* action properties: evaluated on every transition; the event is the last
+\* record of hist'.  A failure prints the history as a counter-example.
+CexA(name) == PrintT(<<"CEX", ToJson([inv |-> name, hist |-> hist'])>>)
+Ev == LastOf(hist')
+Stepped == Len(hist') > Len(hist)
+ChkA(c, name) == IF c THEN TRUE ELSE CexA(name)
+
 Prop_Replay ==
-  [][\A w \in WS : \A sl \in Slates : \A kind \in {"lock", "receive", "finalize"} :
-       (Len(hist') > Len(hist) /\ LastOf(hist').ev = kind /\ LastOf(hist').sl = sl /\ LastOf(hist').w = w)
-          => ReplayNoEffect(st, st', hv, w, kind, sl, "ok")]_vars
+  [][Stepped /\ Ev.ev \in {"lock", "receive", "finalize"} =>
+       ChkA(ReplayNoEffect(st, st', hv, Ev.w, Ev.ev, Ev.sl, "ok"), "ReplayNoEffect")]_vars
+Prop_SelectAvoidsReserved ==
+  [][Stepped /\ Ev.ev \in {"init_send", "process_invoice"} =>
+       ChkA(SelectAvoidsReserved(st, st', Ev.w, Ev.sl), "SelectAvoidsReserved")]_vars
+
+\* C05
+Prop_Cancel ==
+  [][Stepped /\ Ev.ev = "cancel" =>
+       LET w == Ev.w
+           a == [id |-> Ev.id, sl |-> Ev.by]
+           rf == RefreshFull(st, w)
+           mid == LastOr(rf.steps, st)
+           r == CancelBody(mid, w, a)
+           m == CancelMatches(mid, w, a) IN
+       IF rf.res # "ok" THEN TRUE
+       ELSE IF r.res = "ok"
+       THEN ChkA(CancelIsRollback(mid, st', w, CHOOSE t \in m : TRUE), "CancelIsRollback")
+       ELSE ChkA(st'.w[w] = mid.w[w], "CancelRefusedUnchanged")]_vars
+
+\* C07: foreign calls that are not a valid reply only add
+Prop_Foreign ==
+  [][Stepped /\ (Ev.ev = "receive" \/ Ev.ev = "build_coinbase" \/ (Ev.ev = "finalize" /\ "foreign" \in DOMAIN Ev)) =>
+       ChkA(ForeignOnlyAdds(st, st', Ev.w, IF Ev.ev = "build_coinbase" THEN Ev.key ELSE ""), "ForeignOnlyAdds")]_vars
+
+\* C15: a key handed to a NEW output was never handed out before
+Prop_Paths ==
+  [][Stepped /\ Ev.ev \in {"receive", "issue_invoice", "init_send", "process_invoice", "mine", "build_coinbase"} =>
+       \A w \in WS :
+         LET newK == KeysOf(st', w) \ KeysOf(st, w) IN
+         ChkA(\A k \in newK : PathFresh(hv, w, k), "PathsUnique")]_vars
+
+\* C17
+Prop_Ttl ==
+  [][Stepped =>
+       /\ (Ev.ev \in {"receive", "finalize", "process_invoice"}) =>
+            LET ms == {m \in net : m.sl = Ev.sl}
+                ttl == IF ms = {} THEN 0 ELSE (CHOOSE m \in ms : TRUE).ttl IN
+            (MustRefuseTtl(st, Ev.w, ttl) /\ (Ev.ev # "finalize" \/ Ev.sl \in DOMAIN st.w[Ev.w].ctxs))
+               => ChkA(st'.w[Ev.w] = st.w[Ev.w], "ExpiredRefused")
+       /\ (Ev.ev = "refresh") =>
+            LET w == Ev.w
+                exp == {t \in Outstanding(st, w, st.w[w].active) :
+                          st.w[w].txs[t].ttl # 0 /\ Height(st) >= st.w[w].txs[t].ttl} IN
+            ChkA(\A t \in exp : st'.w[w].txs[t].conf \/ st'.w[w].txs[t].ty \in {"TxSentCancelled", "TxReceivedCancelled"},
+                 "ExpiredReleased")]_vars
 
 \* ------------------------------------------------------------- generation
 \* every generated transition prints the history that ends with it - also the
